@@ -2015,7 +2015,8 @@ class QueryRetrieveServiceClass(ServiceClass):
                 LOGGER.info(msg)
 
                 # Update the C-STORE sub-operation result tracker
-                if store_status[0] == STATUS_FAILURE:
+                if store_status[0] not in (STATUS_WARNING, STATUS_SUCCESS):
+                    # Failure, or a status that isn't valid for a C-STORE response
                     store_results[1] += 1
                     # Part 4, C.4.3.1.3.2
                     _add_failed_instance(dataset)
@@ -2428,7 +2429,8 @@ class QueryRetrieveServiceClass(ServiceClass):
                 LOGGER.info(msg)
 
                 # Update the C-STORE sub-operation result tracker
-                if store_status[0] == STATUS_FAILURE:
+                if store_status[0] not in (STATUS_WARNING, STATUS_SUCCESS):
+                    # Failure, or a status that isn't valid for a C-STORE response
                     store_results[1] += 1
                     # Part 4, C.4.2.1.4.2
                     _add_failed_instance(dataset)
